@@ -10,8 +10,45 @@ import (
 	"google.golang.org/protobuf/types/dynamicpb"
 	"pgregory.net/rapid"
 
+	"verif/harness/internal/ev"
 	"verif/harness/internal/wiregen"
 )
+
+// exclusion tokens of the current property (a test process runs one property): generator shapes that a
+// listed known finding asks to avoid; every avoided choice is counted.
+var (
+	curRec *ev.Recorder
+)
+
+func useRecorder(r *ev.Recorder) { curRec = r }
+
+func excluding(token string) bool {
+	if curRec != nil && curRec.Excluding(token) {
+		curRec.Excluded(token)
+		return true
+	}
+	return false
+}
+
+// skipExtension applies the extension-related exclusions for a message of the given runtime.
+func skipExtension(runtime string, xd protoreflect.FieldDescriptor) bool {
+	if !xd.IsExtension() {
+		return false
+	}
+	if xd.Message() == nil && (runtime == "gogo" || runtime == "legacy") && excluding("scalar-extension-on-v1-runtime") {
+		return true
+	}
+	scoped := true // declared in the extend block of a top-level message?
+	if p, ok := xd.Parent().(protoreflect.MessageDescriptor); ok {
+		if _, top := p.Parent().(protoreflect.FileDescriptor); top {
+			scoped = false
+		}
+	}
+	if scoped && excluding("extension-declared-outside-a-top-level-message") {
+		return true
+	}
+	return false
+}
 
 var (
 	refMarshal   = proto.MarshalOptions{Deterministic: true, AllowPartial: true}
@@ -112,7 +149,7 @@ func fillRequired(m *dynamicpb.Message, depth int) {
 
 // sweepValues: the systematic part - every field set alone to each boundary value of its kind, every
 // field left at default, empty string/bytes, empty nested message in a field / list / map / oneof.
-func sweepValues(md protoreflect.MessageDescriptor) []*dynamicpb.Message {
+func sweepValues(md protoreflect.MessageDescriptor, runtime string) []*dynamicpb.Message {
 	var out []*dynamicpb.Message
 	add := func(m *dynamicpb.Message) {
 		fillRequired(m, 3)
@@ -124,7 +161,9 @@ func sweepValues(md protoreflect.MessageDescriptor) []*dynamicpb.Message {
 		fds = append(fds, md.Fields().Get(i))
 	}
 	for _, xt := range extensionsOf(md) {
-		fds = append(fds, xt.TypeDescriptor())
+		if !skipExtension(runtime, xt.TypeDescriptor()) {
+			fds = append(fds, xt.TypeDescriptor())
+		}
 	}
 	for _, fd := range fds {
 		switch {
@@ -206,6 +245,9 @@ func sweepValues(md protoreflect.MessageDescriptor) []*dynamicpb.Message {
 			add(m)
 		default:
 			for _, v := range boundaryFor(fd) {
+				if isNegZero(fd, v) && !fd.HasPresence() && excluding("negative-zero-in-implicit-presence-float") {
+					continue
+				}
 				m := dynamicpb.NewMessage(md)
 				m.Set(fd, v)
 				add(m)
@@ -265,9 +307,18 @@ func genScalar(t *rapid.T, fd protoreflect.FieldDescriptor) protoreflect.Value {
 }
 
 type genOpts struct {
-	requiredProb int  // out of 10: probability that a required field is set
-	maxMap       int  // maximum number of map entries
-	noExt        bool // do not populate extensions
+	requiredProb int    // out of 10: probability that a required field is set
+	maxMap       int    // maximum number of map entries
+	noExt        bool   // do not populate extensions
+	runtime      string // runtime of the concrete type the value is generated for (drives exclusions)
+}
+
+func isNegZero(fd protoreflect.FieldDescriptor, v protoreflect.Value) bool {
+	switch fd.Kind() {
+	case protoreflect.FloatKind, protoreflect.DoubleKind:
+		return v.Float() == 0 && math.Signbit(v.Float())
+	}
+	return false
 }
 
 func genDyn(t *rapid.T, md protoreflect.MessageDescriptor, depth int, o genOpts) *dynamicpb.Message {
@@ -278,7 +329,9 @@ func genDyn(t *rapid.T, md protoreflect.MessageDescriptor, depth int, o genOpts)
 	}
 	if !o.noExt {
 		for _, xt := range extensionsOf(md) {
-			fds = append(fds, xt.TypeDescriptor())
+			if !skipExtension(o.runtime, xt.TypeDescriptor()) {
+				fds = append(fds, xt.TypeDescriptor())
+			}
 		}
 	}
 	chosen := map[protoreflect.FullName]bool{}
@@ -326,7 +379,11 @@ func genDyn(t *rapid.T, md protoreflect.MessageDescriptor, depth int, o genOpts)
 		case fd.Message() != nil:
 			m.Set(fd, protoreflect.ValueOfMessage(genChild(t, fd.Message(), depth, o)))
 		default:
-			m.Set(fd, genScalar(t, fd))
+			v := genScalar(t, fd)
+			if isNegZero(fd, v) && !fd.HasPresence() && excluding("negative-zero-in-implicit-presence-float") {
+				continue
+			}
+			m.Set(fd, v)
 		}
 	}
 	return m
